@@ -46,6 +46,38 @@ func tmplBytes(t string) []byte {
 	return out
 }
 
+// tmplEOL rewrites the literal line endings of a template: mode 1 turns every
+// literal LF into CRLF, mode 2 into a bare CR (class codes and byte sets are kept).
+func tmplEOL(t string, mode int) string {
+	if mode == 0 {
+		return t
+	}
+	var out []byte
+	for i := 0; i < len(t); i++ {
+		switch t[i] {
+		case 0xff:
+			out = append(out, t[i], t[i+1])
+			i++
+		case 0xfe:
+			j := i + 1
+			for t[j] != 0xfe {
+				j++
+			}
+			out = append(out, t[i:j+1]...)
+			i = j
+		case '\n':
+			if mode == 1 {
+				out = append(out, '\r', '\n')
+			} else {
+				out = append(out, '\r')
+			}
+		default:
+			out = append(out, t[i])
+		}
+	}
+	return string(out)
+}
+
 // ---------------------------------------------------------------- readers / writers
 
 // oneShotReader returns all data in one Read, then io.EOF.
